@@ -123,9 +123,14 @@ impl ElementRaw {
                                         if let Some(ref_elem) = weak_ref_elem.upgrade() {
                                             let mut ref_elem_locked = ref_elem.0.write();
                                             // can't use .set_character_data() here, because the model is locked
-                                            ref_elem_locked.content[0] = ElementContent::CharacterData(
-                                                CharacterData::String(refpath_new.clone()),
-                                            );
+                                            let new_content =
+                                                ElementContent::CharacterData(CharacterData::String(refpath_new.clone()));
+                                            // a registered reference element can be empty (e.g. after a failed set_reference_target)
+                                            if let Some(first_item) = ref_elem_locked.content.first_mut() {
+                                                *first_item = new_content;
+                                            } else {
+                                                ref_elem_locked.content.push(new_content);
+                                            }
                                         }
                                     }
                                     // references that already point to the new path stay registered
